@@ -285,3 +285,19 @@ package bexpr
 //@     invariant valid(newMap) && kind(newMap) == K.Map && canIface(newMap) && rtype(newMap) == rtype(valueOf(data)) && !isnil(newMap)
 //@     invariant[C17,C14] forall k RV :: valid(mapget(valueOf(data), k)) && idxOf(rangeslice, k) <= rangeindex ==> canIface(mapget(valueOf(data), k)) && Eval(f.evaluator.ast, iface(mapget(valueOf(data), k)), evalAO(f.evaluator.tagName, f.evaluator.valueTransformationHook, f.evaluator.unknownVal)) != O.E
 //@     invariant[C17,C14] forall k RV :: heap(ghost.rmap)[mapid(newMap)][k] == ite(valid(mapget(valueOf(data), k)) && idxOf(rangeslice, k) <= rangeindex && Eval(f.evaluator.ast, iface(mapget(valueOf(data), k)), evalAO(f.evaluator.tagName, f.evaluator.valueTransformationHook, f.evaluator.unknownVal)) == O.T, mapget(valueOf(data), k), rv.zero)
+
+//@ func CreateEvaluator(expression, opts) (eval, err)
+//@   requires wfOpts(opts) && allCacheOK()
+//@   ensures[C10] xor: (eval != nil) != (err != nil)
+//@   ensures[C10,C11] accept: (err == nil) == parseAccepts(s.tobytes(expression), FoldOpts(opts).withMaxExpressions)
+//@   ensures[C10,C09] usable: err == nil ==> wf(eval.ast) && allCacheOK()
+//@   ensures[C18,C13] plumbing: err == nil ==> eval.tagName == FoldOpts(opts).withTagName && eval.valueTransformationHook == FoldOpts(opts).withHookFn && eval.unknownVal == FoldOpts(opts).withUnknown && eval.expression == expression
+//@   ensures[C10] ast: err == nil ==> eval.ast == parseTree(s.tobytes(expression))
+
+//@ func CreateFilter(expression) (f, err)
+//@   requires allCacheOK()
+//@   ensures[C10] empty: expression == "" ==> f == nil && err == nil
+//@   ensures[C10] xor: expression != "" ==> (f != nil) != (err != nil)
+//@   ensures[C10] accept: expression != "" ==> (err == nil) == parseAccepts(s.tobytes(expression), 0)
+//@   ensures[C10,C17] usable: f != nil ==> f.evaluator != nil && wf(f.evaluator.ast) && allCacheOK()
+//@   ensures[C18,C17] defaults: f != nil ==> f.evaluator.tagName == s.bexprTag && f.evaluator.valueTransformationHook == nil && f.evaluator.unknownVal == nil
